@@ -282,31 +282,31 @@ end mixture
 
    `trajBox l u w g ops` is the model's own trajectory `runOps (diagVel w) g (boxRefl l u) ops` (the one the
    correspondence check of C01 / C06 compares with `HMC._propagate_*` and `corrector`), read on `V × V`.
-   The target is `exp(−U(q))` on the open box `∏ (l i, u i)` and zero outside.  Still excluded: one-sided
-   boxes and coordinates without bounds mixed with bounded ones (the one-coordinate building block
-   `cdrift_volume` is proved for two-sided boxes only) and non-diagonal metrics (the known finding of C01). -/
+   The target is `exp(−U(q))` strictly inside the box and zero outside; every coordinate may be bounded on both
+   sides (positive width), on one side, or not at all (`lb ub : ι → Option ℝ`, `C01.WellFormed`).  Still excluded:
+   non-diagonal metrics (the known finding of C01). -/
 section boxedN
 variable {ι : Type} [Fintype ι]
 
-noncomputable def psiBox (l u w : ι → ℝ) (g : Vec ι → Vec ι) (ops : List (Op ℝ)) (x : Phase ι) : Phase ι :=
-  flipN (trajBox l u w g ops x)
+noncomputable def psiBox (lb ub : ι → Option ℝ) (w : ι → ℝ) (g : Vec ι → Vec ι) (ops : List (Op ℝ)) (x : Phase ι) : Phase ι :=
+  flipN (trajBox lb ub w g ops x)
 
-theorem psiBox_measurePreserving (l u w : ι → ℝ) (hlu : ∀ i, l i < u i) (g : Vec ι → Vec ι) (hg : Measurable g)
+theorem psiBox_measurePreserving (lb ub : ι → Option ℝ) (w : ι → ℝ) (hwf : C01.WellFormed lb ub) (g : Vec ι → Vec ι) (hg : Measurable g)
     (ops : List (Op ℝ)) :
-    MeasurePreserving (psiBox l u w g ops) (((volume : Measure (Vec ι)).prod volume).restrict (openBox l u))
-      (((volume : Measure (Vec ι)).prod volume).restrict (openBox l u)) :=
-  (flipN_mp_box l u).comp (trajBox_mp l u w hlu g hg ops)
+    MeasurePreserving (psiBox lb ub w g ops) (((volume : Measure (Vec ι)).prod volume).restrict (openBox lb ub))
+      (((volume : Measure (Vec ι)).prod volume).restrict (openBox lb ub)) :=
+  (flipN_mp_box lb ub).comp (trajBox_mp lb ub w hwf g hg ops)
 
 /-- **joint invariance in a box, any dimension** -/
-theorem boxed_joint_invariant (l u w : ι → ℝ) (hlu : ∀ i, l i < u i) (U K : Vec ι → ℝ) (hU : Measurable U)
+theorem boxed_joint_invariant (lb ub : ι → Option ℝ) (w : ι → ℝ) (hwf : C01.WellFormed lb ub) (U K : Vec ι → ℝ) (hU : Measurable U)
     (hK : Measurable K) (g : Vec ι → Vec ι) (hg : Measurable g) (ops : List (Op ℝ)) (hp : ops.reverse = ops)
     (G : Phase ι → ℝ≥0∞) (hG : Measurable G) :
-    ∫⁻ x, gibbs U K x * metropolisOp (psiBox l u w g ops) (acceptProb U K (psiBox l u w g ops)) G x
-        ∂(((volume : Measure (Vec ι)).prod volume).restrict (openBox l u))
-      = ∫⁻ x, gibbs U K x * G x ∂(((volume : Measure (Vec ι)).prod volume).restrict (openBox l u)) := by
-  have hΨ := psiBox_measurePreserving l u w hlu g hg ops
+    ∫⁻ x, gibbs U K x * metropolisOp (psiBox lb ub w g ops) (acceptProb U K (psiBox lb ub w g ops)) G x
+        ∂(((volume : Measure (Vec ι)).prod volume).restrict (openBox lb ub))
+      = ∫⁻ x, gibbs U K x * G x ∂(((volume : Measure (Vec ι)).prod volume).restrict (openBox lb ub)) := by
+  have hΨ := psiBox_measurePreserving lb ub w hwf g hg ops
   have hH : Measurable (energy U K) := (hU.comp measurable_fst).add (hK.comp measurable_snd)
-  apply metropolis_invariant_ae _ _ hΨ (psiN_involution_ae l u w hlu g hg ops hp)
+  apply metropolis_invariant_ae _ _ hΨ (psiN_involution_ae lb ub w hwf g hg ops hp)
   · exact ENNReal.measurable_ofReal.comp (Real.measurable_exp.comp hH.neg)
   · exact ENNReal.measurable_ofReal.comp
       (measurable_const.min (Real.measurable_exp.comp (hH.sub (hH.comp hΨ.measurable))))
@@ -315,18 +315,18 @@ theorem boxed_joint_invariant (l u w : ι → ℝ) (hlu : ∀ i, l i < u i) (U K
   · exact hG
 
 /-- the kernel as the code runs it in a box (no momentum flip, the position is kept) -/
-noncomputable def codeKernelBox (l u w : ι → ℝ) (U K : Vec ι → ℝ) (g : Vec ι → Vec ι) (ops : List (Op ℝ))
+noncomputable def codeKernelBox (lb ub : ι → Option ℝ) (w : ι → ℝ) (U K : Vec ι → ℝ) (g : Vec ι → Vec ι) (ops : List (Op ℝ))
     (f : Vec ι → ℝ≥0∞) (x : Phase ι) : ℝ≥0∞ :=
-  ENNReal.ofReal (min 1 (Real.exp (energy U K x - energy U K (trajBox l u w g ops x)))) * f (trajBox l u w g ops x).1
-    + (1 - ENNReal.ofReal (min 1 (Real.exp (energy U K x - energy U K (trajBox l u w g ops x))))) * f x.1
+  ENNReal.ofReal (min 1 (Real.exp (energy U K x - energy U K (trajBox lb ub w g ops x)))) * f (trajBox lb ub w g ops x).1
+    + (1 - ENNReal.ofReal (min 1 (Real.exp (energy U K x - energy U K (trajBox lb ub w g ops x))))) * f x.1
 
 /-- **stationarity of the position in a box, any dimension** -/
-theorem boxed_position_invariant (l u w : ι → ℝ) (hlu : ∀ i, l i < u i) (U K : Vec ι → ℝ) (hU : Measurable U)
+theorem boxed_position_invariant (lb ub : ι → Option ℝ) (w : ι → ℝ) (hwf : C01.WellFormed lb ub) (U K : Vec ι → ℝ) (hU : Measurable U)
     (hK : Measurable K) (hKeven : ∀ p, K (-p) = K p) (g : Vec ι → Vec ι) (hg : Measurable g)
     (ops : List (Op ℝ)) (hp : ops.reverse = ops) (f : Vec ι → ℝ≥0∞) (hf : Measurable f) :
-    ∫⁻ x, gibbs U K x * codeKernelBox l u w U K g ops f x ∂(((volume : Measure (Vec ι)).prod volume).restrict (openBox l u))
-      = ∫⁻ x, gibbs U K x * f x.1 ∂(((volume : Measure (Vec ι)).prod volume).restrict (openBox l u)) := by
-  have h := boxed_joint_invariant l u w hlu U K hU hK g hg ops hp (fun x => f x.1) (hf.comp measurable_fst)
+    ∫⁻ x, gibbs U K x * codeKernelBox lb ub w U K g ops f x ∂(((volume : Measure (Vec ι)).prod volume).restrict (openBox lb ub))
+      = ∫⁻ x, gibbs U K x * f x.1 ∂(((volume : Measure (Vec ι)).prod volume).restrict (openBox lb ub)) := by
+  have h := boxed_joint_invariant lb ub w hwf U K hU hK g hg ops hp (fun x => f x.1) (hf.comp measurable_fst)
   rw [← h]
   congr 1; funext x
   have e : ∀ y : Phase ι, energy U K (flipN y) = energy U K y := fun y => by simp [energy, flipN, hKeven]
@@ -334,13 +334,13 @@ theorem boxed_position_invariant (l u w : ι → ℝ) (hlu : ∀ i, l i < u i) (
   rfl
 
 /-- HMC in a box with a Unit / Diagonal metric: all integrators, all `n`, all `h`, all coefficient sets -/
-theorem boxed_hmc_invariant (l u w : ι → ℝ) (hlu : ∀ i, l i < u i) (U K : Vec ι → ℝ) (hU : Measurable U)
+theorem boxed_hmc_invariant (lb ub : ι → Option ℝ) (w : ι → ℝ) (hwf : C01.WellFormed lb ub) (U K : Vec ι → ℝ) (hU : Measurable U)
     (hK : Measurable K) (hKeven : ∀ p, K (-p) = K p) (g : Vec ι → Vec ι) (hg : Measurable g)
     (c : Coeffs ℝ) (i : Integrator) (h : ℝ) (n : Nat) (f : Vec ι → ℝ≥0∞) (hf : Measurable f) :
-    ∫⁻ x, gibbs U K x * codeKernelBox l u w U K g (schedule c i h n) f x
-        ∂(((volume : Measure (Vec ι)).prod volume).restrict (openBox l u))
-      = ∫⁻ x, gibbs U K x * f x.1 ∂(((volume : Measure (Vec ι)).prod volume).restrict (openBox l u)) :=
-  boxed_position_invariant l u w hlu U K hU hK hKeven g hg _ (C01.schedule_palindrome c i h n) f hf
+    ∫⁻ x, gibbs U K x * codeKernelBox lb ub w U K g (schedule c i h n) f x
+        ∂(((volume : Measure (Vec ι)).prod volume).restrict (openBox lb ub))
+      = ∫⁻ x, gibbs U K x * f x.1 ∂(((volume : Measure (Vec ι)).prod volume).restrict (openBox lb ub)) :=
+  boxed_position_invariant lb ub w hwf U K hU hK hKeven g hg _ (C01.schedule_palindrome c i h n) f hf
 end boxedN
 
 /-! ### non-vacuity of the boxed theorems: a concrete box, potential, kinetic energy and gradient meet the hypotheses,
@@ -349,6 +349,18 @@ example : (0:ℝ) < 1 ∧ Measurable (fun q : ℝ => q ^ 2 / 2) ∧ Measurable (
     ∧ (∀ p : ℝ, (fun p : ℝ => p ^ 2 / 2) (-p) = (fun p : ℝ => p ^ 2 / 2) p) ∧ Measurable (fun q : ℝ => q) := by
   refine ⟨by norm_num, by fun_prop, by fun_prop, fun p => by simp, measurable_id⟩
 example : ((1/2, 9/4) : ℝ × ℝ) ∈ openStrip 0 1 := by constructor <;> norm_num
+
+/-- a well-formed box with a two-sided and a one-sided coordinate, and a point strictly inside it -/
+example : C01.WellFormed (![some 0, none] : Fin 2 → Option ℝ) ![some 1, some 5] := by
+  intro i l u hl hu
+  fin_cases i
+  · simp at hl hu; subst hl hu; norm_num
+  · simp at hl
+example : ((![1/2, 3], ![9/4, -1]) : Vec (Fin 2) × Vec (Fin 2)) ∈ openBox (![some 0, none] : Fin 2 → Option ℝ) ![some 1, some 5] := by
+  intro i
+  fin_cases i
+  · refine ⟨?_, ?_⟩ <;> intro a ha <;> simp at ha <;> subst ha <;> norm_num
+  · refine ⟨?_, ?_⟩ <;> intro a ha <;> simp at ha <;> subst ha <;> norm_num
 
 end C04
 end HmcVerif
